@@ -81,8 +81,11 @@ func suiteC16(c *Ctx) {
 				nm = r.Range(1, 8)
 			}
 			maxLen := 24
-			if r.Chance(10) {
+			switch r.Intn(10) {
+			case 0:
 				maxLen = 1024
+			case 1, 2:
+				maxLen = 130
 			}
 			batch := m3thrift.MetricBatch{CommonTags: genTagList(r, 6, maxLen)}
 			if nm > 0 || r.Bool() {
